@@ -6,27 +6,31 @@ TUS = {
     'tt': dict(src='#include "/repo/src/Bpp/Text/TextTools.cpp"\n', filter='bpp::TextTools', flags=['-I/repo/src/Bpp/Text']),
     'st': dict(src='#include "/repo/src/Bpp/Text/StringTokenizer.cpp"\n', filter='bpp::StringTokenizer', flags=['-I/repo/src/Bpp/Text']),
     'ft': dict(src='#include "/repo/src/Bpp/Io/FileTools.cpp"\n', filter='bpp::FileTools', flags=['-I/repo/src/Bpp/Io']),
+    'nst': dict(src='#include "/repo/src/Bpp/Text/NestedStringTokenizer.cpp"\n', filter='bpp::NestedStringTokenizer', flags=['-I/repo/src/Bpp/Text']),
 }
 S = 'std::basic_string<char>'
 DQ = 'std::deque<std::basic_string<char>>'
 ST = 'bpp::StringTokenizer'
+NST = 'bpp::NestedStringTokenizer'
 CFG = dict(
     types={},
     plain=set(),
     rename={
-        (S, 'find_first_of', 2, 'args:Str,unsigned long'): 'Str__find_first_of',
-        (S, 'find_first_not_of', 2, 'args:Str,unsigned long'): 'Str__find_first_not_of',
+        (S, 'find_first_of', 2, 'args:Str,unsigned long'): 'Str__find_first_of_d',
+        (S, 'find_first_not_of', 2, 'args:Str,unsigned long'): 'Str__find_first_not_of_d',
         (S, 'find', 2, 'args:Str,unsigned long'): 'Str__find',
         (S, 'find_last_of', 2, 'args:char*,default'): 'Str__find_last_of_lit',
         (S, 'find_last_of', 2, 'args:char,default'): 'Str__find_last_of_c',
         (S, 'operator+=', 1, 'args:char'): 'Str__op_pluseq_c',
+        (S, 'operator=', 1, 'args:char*'): 'Str__op_assign_lit',
+        ('ctor', ST, 0): 'StringTokenizer__ctor_0',
         (S, 'operator+=', 1, 'args:Str'): 'Str__op_pluseq',
         (S, 'operator[]', 1): 'Str__op_index',
         (S, 'erase', 2): 'Str__erase_range',
         (DQ, 'erase', 1): 'Deq_Str__erase',
         ('ctor', S, 1, 'void (const char *, const std::allocator<char> &)'): 'Str__ctor_cstr',
     },
-    free={('isEmpty', 1): 'TextTools__isEmpty', ('isDecimalNumber', 1): 'TextTools__isDecimalNumber_c', ('isDecimalNumber', 3): 'TextTools__isDecimalNumber',
+    free={('count', 2): 'TextTools__count', ('isEmpty', 1): 'TextTools__isEmpty', ('isDecimalNumber', 1): 'TextTools__isDecimalNumber_c', ('isDecimalNumber', 3): 'TextTools__isDecimalNumber',
           ('isDecimalInteger', 2): 'TextTools__isDecimalInteger', ('stoi', 3): 'verif_stoi', ('stod', 2): 'verif_stod', ('stol', 3): 'verif_stoi', ('stoul', 3): 'verif_stoi', ('isdigit', 1): 'verif_isdigit', ('isspace', 1): 'verif_isspace',
           ('fromString', 1): [('int (const std::string &)', 'TextTools__fromString_int'), ('double (const std::string &)', 'TextTools__fromString_double')],
           ('operator==', S, 'char'): 'Str__eq_cstr', ('operator==', S, S): 'Str__eq', ('operator+', S, S): 'Str__concat'},
@@ -34,7 +38,7 @@ CFG = dict(
     defaults={('verif_stoi', 1): '0', ('verif_stoi', 2): '10', ('verif_stod', 1): '0', ('Str__substr', 1): 'STR_NPOS', ('Str__find_last_of_lit', 1): 'STR_NPOS', ('Str__find_last_of_c', 1): 'STR_NPOS'},
     throws={'Str__substr', 'verif_stoi', 'verif_stod'},
 )
-STRUCTS = [ST]
+STRUCTS = [ST, NST]
 PRE_STRUCTS = r'''
 #include "str.h"
 #include "vec.h"
@@ -44,6 +48,14 @@ PRELUDE = r'''
 static inline int verif_isdigit(int c) { return c >= '0' && c <= '9'; }
 static inline int verif_isspace(int c) { return c == ' ' || (c >= 9 && c <= 13); }
 #define Str__find_last_of_lit(s, lit, pos) Str__find_last_of_n(s, lit, sizeof(lit) - 1)
+/* s = "literal": only string literals reach this rule (sizeof gives the length) */
+#define Str__op_assign_lit(s, lit) Str__op_assign_n(s, lit, sizeof(lit) - 1)
+#ifdef VERIF_MODE_BOUNDED
+static inline Str *Str__op_assign_n(Str *s, const char *p, unsigned long n) { verif_str_set(s, p, n); return s; }
+#else
+Str *Str__op_assign_n(Str *s, const char *p, unsigned long n)
+  __CPROVER_requires(n < STR_CAP) __CPROVER_ensures(__CPROVER_return_value == s && s->n == n && __CPROVER_is_fresh(s->d, s->n + 1) && s->d[s->n] == 0) __CPROVER_assigns(s->d, s->n);
+#endif
 static inline unsigned long Str__find_last_of_c(const Str *s, char c, unsigned long pos) { char b[1]; b[0] = c; return Str__find_last_of_n(s, b, 1); }
 #ifdef VERIF_MODE_BOUNDED
 static inline _Bool TextTools__isEmpty(const Str *s) { for (unsigned long i = 0; i < STR_BCAP; ++i) { if (i < s->n && !verif_isspace(s->d[i])) return 0; } return 1; }
@@ -59,6 +71,29 @@ Str *Deq_Str__erase(Deq_Str *v, Str *pos)
   /* erase does not reallocate: same storage, one element fewer, the elements from pos on are overwritten */
   __CPROVER_ensures(v->n == __CPROVER_old(v->n) - 1 && v->d == __CPROVER_old(v->d) && __CPROVER_return_value == __CPROVER_old(pos))
   __CPROVER_assigns(v->n, __CPROVER_object_whole(v->d));
+#endif
+/* find_first_of / find_first_not_of of the tokenisers: "the byte at position k of THE string is in THE delimiter set" is a ghost array, so that
+   loop invariants (which may not call functions) can carry the fact.  Sound only if every call inside one function under proof has the same
+   (string, set) arguments: checked syntactically on the lowered text (must_match), the run aborts otherwise. */
+#ifdef VERIF_MODE_BOUNDED
+#define Str__find_first_of_d Str__find_first_of
+#define Str__find_first_not_of_d Str__find_first_not_of
+#else
+extern _Bool verif_isdelim[__CPROVER_constant_infinity_uint];   /* unbounded array: array theory, no flattening */
+unsigned long Str__find_first_of_d(const Str *s, const Str *set, unsigned long pos)
+  __CPROVER_requires(1)
+  __CPROVER_ensures(__CPROVER_return_value == STR_NPOS || (__CPROVER_return_value >= pos && __CPROVER_return_value < s->n && verif_isdelim[__CPROVER_return_value]))
+  __CPROVER_assigns();
+unsigned long Str__find_first_not_of_d(const Str *s, const Str *set, unsigned long pos)
+  __CPROVER_requires(1)
+  __CPROVER_ensures(__CPROVER_return_value == STR_NPOS || (__CPROVER_return_value >= pos && __CPROVER_return_value < s->n && !verif_isdelim[__CPROVER_return_value]))
+  __CPROVER_assigns();
+#endif
+/* TextTools::count(s, pattern): std::search based; at most one match per start position (size() + 1 with an empty pattern) */
+#ifdef VERIF_MODE_BOUNDED
+static inline unsigned long TextTools__count(const Str *s, const Str *pattern) { unsigned long r = nondet_ulong(); __CPROVER_assume(r <= s->n + 1); return r; }
+#else
+unsigned long TextTools__count(const Str *s, const Str *pattern) __CPROVER_requires(1) __CPROVER_ensures(__CPROVER_return_value <= s->n + 1) __CPROVER_assigns();
 #endif
 /* std::stoi / std::stod and friends raise std::invalid_argument or std::out_of_range, which are not exceptions of the library */
 #ifdef VERIF_MODE_BOUNDED
@@ -77,7 +112,7 @@ int TextTools__fromString_int(const Str *s) __CPROVER_requires(1) __CPROVER_ensu
 double TextTools__fromString_double(const Str *s) __CPROVER_requires(1) __CPROVER_ensures(1) __CPROVER_assigns();
 #endif
 '''
-STUB_CONTRACTS = {'verif_stoi', 'verif_stod', 'Deq_Str__erase', 'TextTools__isEmpty', 'TextTools__fromString_int', 'TextTools__fromString_double', 'Str__substr', 'Str__op_pluseq_c', 'Str__op_pluseq',
+STUB_CONTRACTS = {'Str__find_first_of_d', 'Str__find_first_not_of_d', 'TextTools__count', 'Str__op_assign_n', 'verif_stoi', 'verif_stod', 'Deq_Str__erase', 'TextTools__isEmpty', 'TextTools__fromString_int', 'TextTools__fromString_double', 'Str__substr', 'Str__op_pluseq_c', 'Str__op_pluseq',
                   'Str__find_first_of_n', 'Str__find_first_not_of_n', 'Str__find_n', 'Str__find_last_of_n', 'Str__make_copy', 'Str__ctor_copy',
                   'Str__concat', 'Str__eq', 'Str__eq_cstr', 'Str__make_cstr', 'Str__op_assign', 'Str__erase_range',
                   'Deq_Str__push_back'}
@@ -102,6 +137,7 @@ FUNCS = [
          requires=['STR_OBJ(s)'], ensures=[LIB, 'verif_exc == 0 ==> __CPROVER_return_value.n <= s->n'], assigns=['verif_exc'],
          loops={1: dict(assigns='i, blockDepth, result.d, result.n, verif_exc', invariant=['i <= s->n', 'result.n <= i', 'blockDepth <= i', 'verif_exc == 0'], decreases='s->n - i')}),
 ]
+ONE_PAIR = [(r'Str__find_first_(?:not_)?of_d\(([^,]+,[^,]+),', 1, 'the delimiter-class ghost array needs one (string, set) pair per function')]
 TOK_OK = '__CPROVER_is_fresh(self, sizeof(StringTokenizer))'
 MEAS = '(index == STR_NPOS ? 0 : s->n + 1 - index)'
 TOKASS = 'index, self->tokens_.d, self->tokens_.n, self->splits_.d, self->splits_.n, verif_exc'
@@ -109,7 +145,7 @@ FUNCS += [
     dict(cname='StringTokenizer__ctor_4', qname=ST + '::StringTokenizer', sig='(const std::string &, const std::string &, bool, bool)',
          requires=[TOK_OK, 'STR_OBJ(s)', 'STR_OBJ(delimiters)'],
          # terminates for every input and option combination; only library exceptions; no out-of-range substr
-         ensures=[LIB, 'verif_exc == 0'],
+         ensures=[LIB, 'verif_exc == 0'], must_match=ONE_PAIR,
          assigns=['*self', 'verif_exc'],
          loops={1: dict(assigns=TOKASS, invariant=['index == STR_NPOS || index <= s->n', 'verif_exc == 0',
                                                    'self->tokens_.n <= (index == STR_NPOS ? s->n + 1 : index)', 'self->splits_.n <= self->tokens_.n'], decreases=MEAS),
@@ -139,6 +175,42 @@ FUNCS += [
          mirror={'self': [('unsigned long', 'currentPosition_')], '&self->tokens_': [('unsigned long', 'n')], '&self->splits_': [('unsigned long', 'n')]}),
 ]
 
+# NestedStringTokenizer: two pairs of nested loops; the inner loop skips delimiters inside an open block
+NTOK_OK = '__CPROVER_is_fresh(self, sizeof(NestedStringTokenizer))'
+NASS = 'index, newIndex, endBlockFound, blocks, cache.d, cache.n, self->tokens_.d, self->tokens_.n, verif_exc'
+N_OUT = dict(assigns=NASS.replace('newIndex, endBlockFound, ', ''),
+             invariant=['index == STR_NPOS || index <= s->n', 'verif_exc == 0', 'blocks == 0', 'self->tokens_.n <= (index == STR_NPOS ? s->n + 1 : index)'], decreases=MEAS)
+def n_in(found):
+    return dict(assigns=NASS,
+            invariant=['verif_exc == 0',
+                       # newIndex is a position of a delimiter at or after index (the whole delimiter string when solid)
+                       '!endBlockFound ==> (index <= s->n && index >= __CPROVER_loop_entry(index) && (newIndex == STR_NPOS || (newIndex >= index && newIndex < s->n && %s)))' % found,
+                       # the block counter changes by at most the length of the scanned token + 1 at every step: no signed overflow
+                       '!endBlockFound ==> (blocks >= -2 * (long)index && blocks <= 2 * (long)index)',
+                       '!endBlockFound ==> self->tokens_.n <= __CPROVER_loop_entry(index)',
+                       'endBlockFound ==> (blocks == 0 && (index == STR_NPOS || (index <= s->n && index > __CPROVER_loop_entry(index))) && self->tokens_.n <= (index == STR_NPOS ? s->n + 1 : index))'],
+            decreases='(endBlockFound ? 0 : s->n + 2 - index)')
+N_IN_NS = n_in('verif_isdelim[newIndex]')
+N_IN_S = n_in('delimiters->n >= 1 && newIndex + delimiters->n <= s->n')
+FUNCS += [
+    dict(cname='StringTokenizer__ctor_0', qname=ST + '::StringTokenizer', sig='()', requires=[TOK_OK],
+         ensures=['self->tokens_.n == 0 && self->splits_.n == 0 && self->currentPosition_ == 0', 'VEC_FRESH(&self->tokens_) && VEC_FRESH(&self->splits_)'], assigns=['*self']),
+    dict(cname='NestedStringTokenizer__ctor_5', qname=NST + '::NestedStringTokenizer', sig='(const std::string &, const std::string &, const std::string &, const std::string &, bool)',
+         requires=[NTOK_OK, 'STR_OBJ(s)', 'STR_OBJ(open)', 'STR_OBJ(end)', 'STR_OBJ(delimiters)'],
+         # terminates for every input and option combination; raises nothing but the library's exception (no out-of-range substr); no signed overflow of the block counter
+         ensures=[LIB],
+         assigns=['*self', 'verif_exc'],
+         loops={1: N_OUT, 2: N_IN_NS, 3: N_OUT, 4: N_IN_S}, inline=['StringTokenizer__ctor_0'],
+         must_match=ONE_PAIR, variants=[dict(tag='solid0', fix={'solid': '0'}), dict(tag='solid1', fix={'solid': '1'})], mem_kb=30 * 1024 * 1024, timeout=1500,
+         mirror={'s': [('unsigned long', 'n')], 'delimiters': [('unsigned long', 'n')], 'open': [('unsigned long', 'n')], 'end': [('unsigned long', 'n')]},
+         cex_requires=['s->n <= 4 && delimiters->n <= 2 && open->n <= 1 && end->n <= 1']),
+    dict(cname='NestedStringTokenizer__nextToken', qname=NST + '::nextToken', requires=[NTOK_OK, TOK_WF],
+         ensures=[LIB, '(verif_exc != 0) == (__CPROVER_old(self->currentPosition_) >= self->tokens_.n)',
+                  'verif_exc == 0 ==> (self->currentPosition_ == __CPROVER_old(self->currentPosition_) + 1 && __CPROVER_return_value == &self->tokens_.d[__CPROVER_old(self->currentPosition_)])',
+                  'self->currentPosition_ <= self->tokens_.n'],
+         assigns=['self->currentPosition_', 'verif_exc']),
+]
+
 FT = 'bpp::FileTools'
 FUNCS += [
     dict(cname='StringTokenizer__removeEmptyTokens', qname=ST + '::removeEmptyTokens', requires=[TOK_OK, TOK_WF],
@@ -156,7 +228,7 @@ FUNCS += [
 ]
 
 LEMMAS = []
-REPLAY = {'p_FileTools__getParent': dict(adapter='c16_text.cpp'), 'p_StringTokenizer__ctor_4': dict(adapter='c16_hang.cpp'), 'p_StringTokenizer__unparseRemainingTokens': dict(adapter='c16_text.cpp')}
+REPLAY = {'re:^p_NestedStringTokenizer__ctor_5': dict(adapter='c16_hang.cpp'), 'p_FileTools__getParent': dict(adapter='c16_text.cpp'), 'p_StringTokenizer__ctor_4': dict(adapter='c16_hang.cpp'), 'p_StringTokenizer__unparseRemainingTokens': dict(adapter='c16_text.cpp')}
 TRUSTED = ['std::string modelled as bytes + length; searching/slicing members by contract (stubs/str.h); std::isdigit/isspace in the C locale']
 ASSUMPTIONS = ['strings shorter than 65536 bytes in the proofs (cap of the memory model; induction over the length, no unwinding)']
 NOT_DECIDED = ['entry points built on iostreams, std::map or STL algorithms with lambdas (listed in DESIGN.md C16)']
